@@ -60,7 +60,9 @@ class Check:
         self.tier = tier
         self.seed = seed
         self.t0 = time.time()
-        self.work = os.path.join(WORK, prop)
+        # runs against a scratch worktree (VERIF_REPO) get their own work directory and do not touch evidence/
+        self.alt = os.path.realpath(REPO) != "/repo"
+        self.work = os.path.join(WORK, prop + ("-alt-%d" % os.getpid() if self.alt else ""))
         os.makedirs(self.work, exist_ok=True)
         os.makedirs(os.path.join(ROOT, "replays"), exist_ok=True)
         self.obligations = 0
@@ -359,8 +361,9 @@ class Check:
             cov["notes"] = self.notes
         ev = {"property_id": self.prop, "tier": self.tier, "seed": self.seed, "level": level, "coverage": cov,
               "assumptions": self.assume, "wall_s": round(time.time() - self.t0, 2), "violations": len(violations)}
-        os.makedirs(os.path.join(ROOT, "evidence"), exist_ok=True)
-        with open(os.path.join(ROOT, "evidence", self.prop + ".json"), "w") as f:
+        evdir = os.path.join(ROOT, "evidence") if not self.alt else self.work
+        os.makedirs(evdir, exist_ok=True)
+        with open(os.path.join(evdir, self.prop + ".json"), "w") as f:
             json.dump(ev, f, indent=1, sort_keys=True, default=str)
         for l in lines:
             print(l)
@@ -371,7 +374,7 @@ class Check:
         return 1 if violations else 0
 
     def write_replay(self, f, ix, others):
-        path = os.path.join(ROOT, "replays", "%s-%s-%d.json" % (self.prop, self.tier, ix))
+        path = os.path.join(ROOT, "replays", "%s-%s%s-%d.json" % (self.prop, self.tier, "-alt" if self.alt else "", ix))
         doc = {"property": self.prop, "kind": f["kind"], "key": f["key"], "what": f["what"],
                "theorem_or_correspondence": f.get("theorem_or_correspondence"), "input": f.get("case"),
                "expected": f.get("expected"), "observed": f.get("observed"), "seed": self.seed, "tier": self.tier,
